@@ -58,7 +58,13 @@ type Obs struct {
 	Rejects [][2][]int  `json:"rejects,omitempty"` // tseries: entries whose JSON the strict decoding rejects
 	Vals    [][]int     `json:"vals,omitempty"`    // stream: the JSON of the values decoded one after the other
 	Fin     int         `json:"fin,omitempty"`     // stream: 0 More() false, 1 Decode errors, 2 json.Unmarshal error
-	Strs    [][]int     `json:"strs,omitempty"`    // shell tokens (bytes)
+	Deep    bool        `json:"deep,omitempty"`    // gort: jsonx round trip DeepEqual encoding/json's round trip
+	Ident   bool        `json:"ident,omitempty"`   // gort: the value came back DeepEqual to the original
+	JsonEq  bool        `json:"jsoneq,omitempty"`  // gort: Got / Want2 are the canonical JSON of the two results
+	Want2   string      `json:"want2,omitempty"`
+	Canon   *bool       `json:"canon,omitempty"` // gort: every float literal json.Marshal wrote is canonical
+	N       int         `json:"n,omitempty"`     // runes: code points checked
+	Strs    [][]int     `json:"strs,omitempty"`  // shell tokens (bytes)
 	Floats  []FloatEnt  `json:"floats,omitempty"`
 	Valid   *bool       `json:"valid,omitempty"` // json.Valid(output)
 	Got     string      `json:"got,omitempty"`   // canonical form of the decoded output
@@ -82,6 +88,7 @@ type Case struct {
 	PV        interface{} `json:"pv,omitempty"`        // print: the value tree
 	WantItems []WantItem  `json:"wantitems,omitempty"` // tseries: the intended entries
 	Multi     bool        `json:"multi,omitempty"`     // stream: Want lists the intended values
+	Loose     bool        `json:"loose,omitempty"`     // gort: the type keeps JSON text as text; JSON equality expected
 	Obs       *Obs        `json:"obs,omitempty"`
 
 	goVal interface{} // print: the Go value (not serialised)
@@ -498,6 +505,10 @@ func runCase(c *Case) {
 		} else if typed != nil {
 			o.Note = "result together with errors"
 		}
+	case "gort":
+		runGoRT(c, o)
+	case "runes":
+		runRunes(o, in)
 	case "tseries":
 		runTyped(c, o, in)
 	case "stream":
